@@ -644,7 +644,7 @@ func checkNewHMAC(r *Run, rc *RuleCtx, fn *ssa.Function) {
 		return
 	}
 	rc.Instance("acquire", true, nil)
-	if mac.Call.Args[0] != ssa.Value(key) {
+	if stripConvs(mac.Call.Args[0]) != ssa.Value(key) {
 		rc.Violation(fn, instrPos(mac), "acquire key", "the pooled HMAC is not keyed with the key argument")
 	}
 	eachInstr(fn, func(b *ssa.BasicBlock, i int, in ssa.Instruction) {
